@@ -21,6 +21,7 @@ def run(rep):
     tr.rule_partial(rep)
     pr.rule_state_safety(rep)
     pr.rule_linear(rep)
+    lr.rule_token(rep, "C01.token")
     pr.rule_parse_frame(rep, "C01.loop")
     er.rule_cap(rep)
     er.rule_handle_external(rep, "C01.wrap")
